@@ -353,6 +353,45 @@ def run_dot_completion(res, tier, seed):
                               {"files": [{"path": p, "text": t} for p, t in files], "query": q, "impl": line[:300], "expected": want})
 
 
+def run_prefix_completion(res, tier, seed):
+    """the word being typed may spell a keyword (`use` on the way to `user`): the names in scope that extend it are
+    still offered, and accepting one replaces exactly the typed word (oracle only)"""
+    # (keywords that start a new top-level item - pub, type, import, const, if - end the function body for the parser:
+    # what is in scope behind them is not defined by the text, they are left out)
+    pairs = [("use", "user"), ("let", "letter"), ("fn", "fnord"), ("todo", "todo_list"), ("case", "case_x"),
+             ("as", "asset"), ("panic", "panicky"), ("assert", "asserted"), ("opaque", "opaqueness"),
+             ("us", "user"), ("le", "letter"), ("x", "xylo")]
+    batches, plans = [], []
+    for kw, name in pairs:
+        for shape in ("param", "let", "fn"):
+            if shape == "param":
+                text = f"pub fn main({name}) {{\n  {kw}\n}}\n"
+            elif shape == "let":
+                text = f"pub fn main() {{\n  let {name} = 1\n  {kw}\n}}\n"
+            else:
+                text = f"pub fn {name}() {{\n  1\n}}\npub fn main() {{\n  {kw}\n}}\n"
+            off = text.rindex("  " + kw + "\n") + 2 + len(kw)
+            class W: pass
+            ws = W(); ws.files = [("/w/p/src/m1.gleam", text), ("/w/p/gleam.toml", 'name = "p"\n')]
+            q = f"complete\t0\t{off}\t-"
+            batches.append((ws, [q])); plans.append((ws.files, kw, name, off, q))
+    ans = run_workspaces(batches)
+    res.cov["evaluations"] += len(batches)
+    for (files, kw, name, off, q), a in zip(plans, ans):
+        line = a[0]
+        if line.startswith("PANIC"):
+            continue
+        items = [it.split("|") for it in line.split(";")] if line not in ("none", "empty") else []
+        mine = [it for it in items if it[0] == name]
+        rp = {"files": [{"path": p, "text": t} for p, t in files], "query": q, "impl": line[:300], "expected": f"{name} replacing {off - len(kw)}-{off}"}
+        if not mine:
+            is_let = "let " + name in files[0][1]
+            key = "C18/let-binder-not-offered-behind-keyword-prefix" if is_let else "C18/prefix-name-not-offered"
+            res.add_violation(key, f"typing `{kw}` with `{name}` in scope: `{name}` is not offered", rp)
+        elif mine[0][2] != f"{off - len(kw)}-{off}":
+            res.add_violation("C18/prefix-replacement-range", f"typing `{kw}`: accepting `{name}` replaces {mine[0][2]}, the typed word is {off - len(kw)}-{off}", rp)
+
+
 def run(prop, res, tier, seed):
     res.assumptions += [
         "pattern/expression forms that scope.rs treats identically are collapsed in the model (Pat.node, Expr.node)",
@@ -367,6 +406,7 @@ def run(prop, res, tier, seed):
     run_c05(res, tier, seed, want_c18=(prop == "C18"))
     if prop == "C18":
         run_dot_completion(res, tier, seed)
+        run_prefix_completion(res, tier, seed)
         # C18 only reports completion findings
         res.violations = [v for v in res.violations if v[0].startswith("C18/")]
     else:
